@@ -296,3 +296,98 @@ def shrink_grammar(g, fails):
             except Exception:
                 pass
     return g
+
+
+# ------------------------------------------------------------------ prefix weights (mirror of model/Prefix.v)
+
+
+class PrefixMirror(Mirror):
+    """joint iteration of span weights, prefix weights and totals for one string xs"""
+
+    def zb(self, tc, body):
+        p = self.one
+        for k, v in body:
+            if k == "N":
+                p = self.mul(p, tc.get(v, self.zero))
+        return p
+
+    def body_pre(self, c, pc, tc, xs, body, i):
+        n = len(xs)
+        if not body:
+            return self.one if i == n else self.zero
+        (k, v), rest = body[0], body[1:]
+        if k == "T":
+            if i == n:
+                return self.zb(tc, rest)
+            return self.body_pre(c, pc, tc, xs, rest, i + 1) if xs[i] == v else self.zero
+        tot = self.zero
+        for m in range(i, n):
+            a = c.get((v, i, m), self.zero)
+            if a != self.zero:
+                tot = self.add(tot, self.mul(a, self.body_pre(c, pc, tc, xs, rest, m)))
+        a = pc.get((v, i), self.zero)
+        if a != self.zero:
+            tot = self.add(tot, self.mul(a, self.zb(tc, rest)))
+        return tot
+
+    def pstep(self, xs, st):
+        c, pc, tc = st
+        n = len(xs)
+        npc = {}
+        for X in self.heads:
+            for i in range(n + 1):
+                v = self.zero
+                for w, h, b in self.rules:
+                    if h == X:
+                        v = self.add(v, self.mul(w, self.body_pre(c, pc, tc, xs, b, i)))
+                if v != self.zero:
+                    npc[(X, i)] = v
+        ntc = {}
+        for X in self.heads:
+            v = self.zero
+            for w, h, b in self.rules:
+                if h == X:
+                    v = self.add(v, self.mul(w, self.zb(tc, b)))
+            if v != self.zero:
+                ntc[X] = v
+        return (self.step(xs, c), npc, ntc)
+
+    def prefix(self, X, xs, fuel=80, tol=None):
+        st = ({}, {}, {})
+        for _ in range(fuel):
+            st2 = self.pstep(xs, st)
+            if tol is None:
+                if st2 == st:
+                    return st[1].get((X, 0), self.zero)
+            else:
+                same = True
+                for a, b in zip(st, st2):
+                    for k in set(a) | set(b):
+                        if abs(a.get(k, 0.0) - b.get(k, 0.0)) > tol * max(1.0, abs(b.get(k, 0.0))):
+                            same = False
+                            break
+                    if not same:
+                        break
+                if same:
+                    return st2[1].get((X, 0), self.zero)
+            st = st2
+        return None
+
+
+def pmirror_exact(g):
+    return PrefixMirror(g)
+
+
+def pmirror_float(g):
+    return PrefixMirror(g, zero=0.0, one=1.0, conv=lambda w: float(Fraction(w)))
+
+
+def pmirror_bool(g):
+    return PrefixMirror(g, zero=False, one=True, conv=lambda w: bool(w) if isinstance(w, bool) else Fraction(w) > 0, add=lambda a, b: a or b, mul=lambda a, b: a and b)
+
+
+def add_eos(g):
+    """EOS-wrapped grammar: new start s' -> S eos, eos is the extra terminal nT"""
+    s2 = max(nts_of(g)) + 1
+    one = True if any(isinstance(w, bool) for w, _, _ in g["rules"]) else "1/1"
+    return {"S": s2, "nT": g["nT"] + 1, "rules": [[one, s2, [["N", g["S"]], ["T", g["nT"]]]]] + [list(r) for r in g["rules"]]}
